@@ -2,6 +2,7 @@ import Pms.Lemmas.Vec
 import Mathlib.Tactic.FieldSimp
 import Mathlib.Tactic.Ring
 import Mathlib.Tactic.Linarith
+import Mathlib.Tactic.IntervalCases
 
 /-!
 # C15 — vector-field measures (`PyMatterSim/static/vector.py`), real-valued part
@@ -183,6 +184,11 @@ theorem C15_div_linear (d : ℕ) (rint : K → ℤ) (H Hinv : ℕ → ℕ → K)
   refine Finset.sum_congr rfl fun j _ => Finset.sum_congr rfl fun k hk => ?_
   rw [hr _ k (Finset.mem_range.mp hk), ← Finset.sum_sub_distrib, Finset.mul_sum]
   exact Finset.sum_congr rfl fun l _ => by ring
+
+/-- non-vacuity of `hinv` in `C15_div_linear`: the unit cell -/
+example : Pbc.IsInv 2 (fun i j => if i = j then (1 : ℚ) else 0) (fun i j => if i = j then (1 : ℚ) else 0) := by
+  intro i hi k hk
+  interval_cases i <;> interval_cases k <;> simp
 
 /-! ### vibrability -/
 
